@@ -124,7 +124,8 @@ def get_tag_selection_model(code: str, name: str, start: int, end: int) -> Selec
             if val[0] != val[1]:
                 push_range(ranges, (start + val[0], start + val[1]))
 
-                if attr.name == 'class':
+                # NB: attribute names are case-insensitive in HTML: `CLASS="a b"`
+                if attr.name.lower() == 'class':
                     # For class names, split value into space-separated tokens
                     for token in token_list(tag_src[val[0]:val[1]], start + val[0]):
                         push_range(ranges, token)
